@@ -2,6 +2,7 @@ package props
 
 import (
 	"fmt"
+	"github.com/remieven/ysgo/variable"
 	"strings"
 
 	"github.com/remieven/ysgo/verifharness/core"
@@ -159,7 +160,7 @@ var exprFaults = []exprFault{
 var exprPositions = []string{"line-inline", "option-text", "option-condition", "if-condition", "elseif-condition", "set-rhs", "declare-value", "call-argument", "command-argument", "jump-expression", "operand", "function-argument"}
 
 // statement-level fault classes
-var stmtFaults = []string{"unknown-node-by-name", "unknown-node-by-expression", "non-string-jump-target", "unknown-command", "command-error", "non-boolean-if-condition", "non-boolean-option-condition", "markup-error-in-line", "unknown-function-call-statement", "wait-misuse", "compound-assign-unknown-variable", "assignment-changes-type"}
+var stmtFaults = []string{"unknown-node-by-name", "unknown-node-by-expression", "non-string-jump-target", "unknown-command", "command-error", "non-boolean-if-condition", "non-boolean-option-condition", "markup-error-in-line", "unknown-function-call-statement", "wait-misuse", "compound-assign-unknown-variable", "assignment-changes-type", "async-command-error", "host-function-error-of-concrete-type"}
 
 func (c06) Thresholds(tier string) map[string]int64 {
 	th := map[string]int64{
@@ -312,6 +313,12 @@ func (p c06) Run(c *core.Ctx) {
 			st = &hast.Stmt{K: hast.SSet, Var: "never_set", Op: r.Pick("+=", "-=", "*=", "/=", "%="), X: n("1")}
 		case "assignment-changes-type":
 			st = &hast.Stmt{K: hast.SSet, Var: "fuel", Op: "=", X: pick2(r, hast.Str("x"), hast.Bool(true))}
+		case "async-command-error":
+			// the command's error arrives after the call that started it has returned
+			st = &hast.Stmt{K: hast.SCommand, Name: r.Pick("afail_goroutine", "afail_channel"), Args: []hast.CmdArg{{Word: "x"}}}
+		case "host-function-error-of-concrete-type":
+			// a converted host function whose error result has a concrete type (struct, pointer, string kind)
+			st = &hast.Stmt{K: hast.SCall, X: hast.Call(r.Pick("herr_struct", "herr_pointer", "herr_string", "herr_struct_only"), n("1"))}
 		}
 	}
 	st.ID = next()
@@ -349,9 +356,15 @@ func (p c06) Run(c *core.Ctx) {
 	} else {
 		c.Feature("recording-store")
 	}
-	pair, err, pan := NewPair(prog, scripts, PairOpts{UseDefaultStore: useDef}, r.Fork())
+	herr := func([]model.Val) (model.Val, bool, error) { return model.None, false, mon.ErrHost }
+	pair, err, pan := NewPair(prog, scripts, PairOpts{UseDefaultStore: useDef,
+		ExtraFuncs: map[string]model.Fn{"herr_struct": herr, "herr_pointer": herr, "herr_string": herr, "herr_struct_only": herr}}, r.Fork())
 	if err != nil || pan != "" {
 		c.Violate("a generated, syntactically valid program (with one planted script-level fault) failed to load", map[string]any{"readers": scripts, "fault": class, "position": pos, "error": fmt.Sprint(err), "panic": pan})
+		return
+	}
+	if err := c06Host(pair); err != nil {
+		c.Violate("registering a host function or command of a supported shape failed: "+err.Error(), map[string]any{"readers": scripts})
 		return
 	}
 	// host configuration: one runner in three is first restored from its own initial snapshot
@@ -411,6 +424,7 @@ func (p c06) Run(c *core.Ctx) {
 	}
 	// the runner must remain usable
 	waiting := false
+	stuck := 0
 	for i := 0; i < 30; i++ {
 		arg := 0
 		if !waiting {
@@ -427,11 +441,62 @@ func (p c06) Run(c *core.Ctx) {
 			return
 		}
 		waiting = got.Kind == mon.KOptions
+		// every command of this workload completes on its own: a runner that still says "waiting" after
+		// five rounds of 2000 polls (>= 0.5 s) waits for something that is over
+		if got.Kind == mon.KWaiting {
+			stuck++
+			if stuck >= 5 {
+				d := pair.Detail(choices, model.Outcome{Kind: model.OErr}, got, "stuck in the waiting state after an error")
+				d["fault"], d["position"] = class, pos
+				c.Violate("after an error the runner is not usable: it keeps waiting for a command although every command has completed", d)
+				return
+			}
+		} else {
+			stuck = 0
+		}
 	}
 	c.Nontrivial(strings.Join(scripts, "\x00"), fmt.Sprint(choices))
 	if c.WantSample() {
 		c.Sample(map[string]any{"readers": scripts, "fault": class, "position": pos, "choices": choices, "trace": pair.Trace[max(0, len(pair.Trace)-6):]})
 	}
+}
+
+type c06StructErr struct{ msg string }
+
+func (e c06StructErr) Error() string { return e.msg }
+
+type c06PtrErr struct{ msg string }
+
+func (e *c06PtrErr) Error() string { return e.msg }
+
+type c06StrErr string
+
+func (e c06StrErr) Error() string { return string(e) }
+
+// c06Host registers, on both sides, the handlers of the host-side fault classes.
+func c06Host(p *Pair) error {
+	for _, name := range []string{"afail_goroutine", "afail_channel"} {
+		p.M.Host.Cmds[name] = func([]model.Val) error { return mon.ErrHost }
+	}
+	if err := p.R.DR.ConvertAndAddCommand("afail_goroutine", func(string) error { return mon.ErrHost }); err != nil {
+		return err
+	}
+	p.R.DR.AddCommand("afail_channel", func([]*variable.Value) <-chan error {
+		ch := make(chan error, 1)
+		go func() { ch <- mon.ErrHost }()
+		return ch
+	})
+	// (the model's side of the herr_* functions is installed by NewPair; here the real runner gets converted ones)
+	if err := p.R.DR.ConvertAndAddFunction("herr_struct", func(float64) (float64, c06StructErr) { return 0, c06StructErr{"struct error"} }); err != nil {
+		return err
+	}
+	if err := p.R.DR.ConvertAndAddFunction("herr_pointer", func(float64) (float64, *c06PtrErr) { return 0, &c06PtrErr{"pointer error"} }); err != nil {
+		return err
+	}
+	if err := p.R.DR.ConvertAndAddFunction("herr_string", func(float64) (float64, c06StrErr) { return 0, c06StrErr("string-kind error") }); err != nil {
+		return err
+	}
+	return p.R.DR.ConvertAndAddFunction("herr_struct_only", func(float64) c06StructErr { return c06StructErr{"struct error"} })
 }
 
 // longRun: one Next that executes about 2*10^5 non-yielding statements.
